@@ -11,6 +11,9 @@ Reads (current working tree, every run):
                                                                   -> gen_pres_cts
   * AST of pptx/opc/package.py::OpcPackage.main_document_part: the relationship type
                                                                   -> gen_rt_office_document
+  * AST of pptx/opc/serialized.py::_DirPkgReader.__contains__: os.path.exists (directories
+    count as present) or os.path.isfile     -> c01_meta.json dir_reader_counts_directories
+    (used by checks/c16.py when it presents a directory-form package to the model)
 Fail-closed: a source shape that is not recognised is listed in `unmodelled`, and
 props/C01.v states `unmodelled = []`.
 Also writes gen/c01_meta.json (same data for the python side of the correspondence).
@@ -152,6 +155,22 @@ def main():
     if not found:
         unmodelled.append("OpcPackage.main_document_part: relationship type not recognised")
 
+    # _DirPkgReader.__contains__: does a directory of the tree count as a present member?
+    dir_counts_dirs = None
+    src = open(os.path.join(REPO, "src/pptx/opc/serialized.py"), encoding="utf-8").read()
+    f = find_func(ast.parse(src), "_DirPkgReader", "__contains__")
+    if f is not None:
+        calls = [n.func.attr for n in ast.walk(f) if isinstance(n, ast.Call) and isinstance(n.func, ast.Attribute)
+                 and isinstance(n.func.value, ast.Attribute) and n.func.value.attr == "path"
+                 and n.func.attr in ("exists", "isfile", "isdir", "lexists")]
+        if calls == ["exists"] or calls == ["lexists"]:
+            dir_counts_dirs = True
+        elif calls == ["isfile"]:
+            dir_counts_dirs = False
+    if dir_counts_dirs is None:
+        unmodelled.append("_DirPkgReader.__contains__: membership test not recognised")
+        dir_counts_dirs = True
+
     out = ["(* GENERATED by tx/tx_c01.py from /repo -- do not edit *)",
            "From V.lib Require Import Prelude.",
            "Open Scope N_scope.",
@@ -171,7 +190,8 @@ def main():
            ""]
     write_if_changed(os.path.join(VERIF, "coq", "gen", "GenC01.v"), "\n".join(out))
     meta = {"default_table": table, "xml_cts": xml_cts, "blob_cts": blob_cts, "init_defaults": init_defaults,
-            "pres_cts": pres_cts, "rt_office_document": rt_od, "unmodelled": unmodelled}
+            "pres_cts": pres_cts, "rt_office_document": rt_od, "unmodelled": unmodelled,
+            "dir_reader_counts_directories": dir_counts_dirs}
     write_if_changed(os.path.join(VERIF, "coq", "gen", "c01_meta.json"), json.dumps(meta, indent=1, sort_keys=True))
     if unmodelled:
         print("unmodelled:", unmodelled)
